@@ -305,3 +305,159 @@ def replay_limit(family, which, x, variant):
     out["got"] = repr(got)
     out["violates"] = got != x
     return out
+
+
+def replay_c16(family, sid, check):
+    """native search: register files with seeded random contents; single read vs bulk read of one id, or the cache
+    history (capabilities change between a single read and a bulk read)"""
+    import random
+    rnd = random.Random(7)
+    out = {"violates": False}
+    if check.startswith("C16_every_listed_id_is_known"):
+        for before in (False, True):
+            inv = make_inverter(family, 0)
+            regs = NativeRegs()
+            for a in range(30000, 48000):
+                regs.mem[a] = 1
+            attach_regs(inv, regs)
+            if family == "ET":
+                inv._has_battery = before
+                inv._has_mppt = before
+            else:
+                inv._has_meter = before
+            first = inv.sensors()[1].id_
+            try:
+                asyncio.run(inv.read_sensor(first))
+                asyncio.run(inv.read_runtime_data())
+            except BaseException as e:      # noqa
+                out["note"] = repr(e)
+                continue
+            missing = [s.id_ for s in inv.sensors() if inv._get_sensor(s.id_) is None]
+            if missing:
+                out.update(violates=True, missing=missing[:8], capabilities_before=before)
+                return out
+        return out
+    for trial in range(40):
+        inv = make_inverter(family, 0)
+        if family == "ET":
+            inv._has_battery2 = inv._has_mppt = inv._has_meter_extended = inv._has_meter_extended2 = True
+        regs = NativeRegs()
+        fill = (0, 0xFFFF, 1, 0x8000)[trial] if trial < 4 else None
+        for a in range(30000, 48000):
+            regs.mem[a] = fill if fill is not None else rnd.choice((0, 1, 0xFFFF, 0x7FFF, 0x8000, rnd.randrange(65536)))
+        if fill == 0:
+            regs.mem[35184] = 1
+        attach_regs(inv, regs)
+        try:
+            data = asyncio.run(inv.read_runtime_data())
+        except BaseException as e:      # noqa
+            continue
+        if sid not in [s.id_ for s in inv.sensors()]:
+            continue
+        bulk = data.get(sid)
+        try:
+            single = asyncio.run(inv.read_sensor(sid))
+        except NotImplementedError:
+            if check.startswith("C16_read_value_is_implemented"):
+                return {"violates": True, "detail": "NotImplementedError"}
+            continue
+        except ValueError as e:
+            if bulk is not None or "nknown" in str(e):
+                return {"violates": True, "bulk": repr(bulk), "single": repr(e), "trial": trial}
+            continue
+        except BaseException as e:      # noqa
+            return {"violates": True, "single": repr(e), "trial": trial}
+        same = (single == bulk) or (single != single and bulk != bulk)
+        if not same:
+            return {"violates": True, "bulk": repr(bulk), "single": repr(single), "trial": trial}
+    return out
+
+
+# ---- C15 scenarios ---------------------------------------------------------------------------------------------------------
+def _et_states():
+    out = []
+    for sp in (0, 1):
+        for pvf in (0, 1):
+            for lvl, e2, e1 in (("full", True, True), ("lt58", False, True), ("lt45", False, False)):
+                for mppt in (False, True):
+                    for b2 in (False, True):
+                        out.append(dict(sp=sp, pvf=pvf, lvl=lvl, e2=e2, e1=e1, mppt=mppt, b2=b2))
+    return out
+
+
+def _apply_et_state(inv, st):
+    from goodwe.et import ET
+    s = ET._ET__all_sensors
+    if st["pvf"]:
+        s = tuple(x for x in s if 'pv4' not in x.id_)
+        s = tuple(x for x in s if 'pv3' not in x.id_)
+    if st["sp"]:
+        s = tuple(filter(ET._single_phase_only, s))
+    m = ET._ET__all_sensors_meter
+    if st["sp"]:
+        m = tuple(filter(ET._single_phase_only, m))
+    if st["lvl"] == "lt58":
+        m = tuple(filter(ET._not_extended_meter2, m))
+    if st["lvl"] == "lt45":
+        m = tuple(filter(ET._not_extended_meter, m))
+    inv._sensors, inv._sensors_meter = s, m
+    inv._has_meter_extended2, inv._has_meter_extended = st["e2"], st["e1"]
+    inv._has_mppt, inv._has_battery2 = st["mppt"], st["b2"]
+
+
+def replay_runtime(family, state, script, check):
+    """two read_runtime_data() calls from an invariant state with the transport outcomes of the witness"""
+    inv = make_inverter(family, 0)
+    if family == "ET":
+        _apply_et_state(inv, _et_states()[state])
+    elif family == "DT":
+        from goodwe.dt import DT
+        combos = []
+        for sp in (0, 1):
+            for pv2 in (0, 1):
+                for meter in (True, False):
+                    combos.append((sp, pv2, meter))
+        sp, pv2, meter = combos[state]
+        s = tuple(filter(DT._single_phase_only, DT._DT__all_sensors)) if sp else DT._DT__all_sensors
+        if pv2:
+            s = tuple(filter(DT._pv1_pv2_only, s))
+        inv._sensors, inv._has_meter = s, meter
+    script = list(script)
+    pos = [0]
+    log = []
+
+    async def stub(command):
+        log.append(request_kind(command))
+        step = script[pos[0]] if pos[0] < len(script) else {"kind": "return", "payload": bytes(250)}
+        pos[0] += 1
+        if step["kind"] == "raise":
+            if step["cls"] == "RequestRejectedException":
+                raise RequestRejectedException(step.get("message", ""))
+            raise RequestFailedException(step.get("message", ""), 1)
+        payload = bytes(step["payload"])
+        need = 2 * command.value if hasattr(command, "value") and isinstance(command.value, int) else len(payload)
+        payload = (payload + bytes(need))[:max(need, 0)] if need else payload
+        return ProtocolResponse(frame_around(command, payload), command)
+    inv._read_from_socket = stub
+    calls = []
+    for k in (1, 2):
+        try:
+            data = asyncio.run(inv.read_runtime_data())
+            want = sorted(set(s.id_ for s in inv.sensors()))
+            calls.append({"ok": True, "keys_equal": sorted(set(data.keys())) == want,
+                          "missing": sorted(set(want) - set(data))[:5], "extra": sorted(set(data) - set(want))[:5]})
+        except BaseException as e:      # noqa
+            calls.append({"ok": False, "raised": repr(e)[:100], "rejected": isinstance(e, RequestRejectedException)})
+    out = {"calls": calls, "requests": log}
+    if check.startswith("C15_keys_equal_sensors"):
+        out["violates"] = any(c["ok"] and not c["keys_equal"] for c in calls)
+    elif check.startswith("C15_succeeds_by_second_call"):
+        out["violates"] = not calls[0]["ok"] and not calls[1]["ok"]
+    elif check.startswith("C15_only_refusal"):
+        out["violates"] = any((not c["ok"]) and not c.get("rejected") for c in calls)
+    elif check.startswith("C18_only_read"):
+        out["violates"] = any(k == "write" for k in log)
+    else:
+        out["violates"] = False
+        out["note"] = "check not re-evaluated natively"
+    return out
